@@ -27,7 +27,7 @@ Zero == [c \in Chan |-> [d \in Denom |-> 0]]
 Init ==
   \E c0 \in InitCfgs :
     LET pre == IF c0.legacy THEN [c \in Chan |-> [d \in Denom |-> IF c = "ch1" THEN 1 ELSE 0]] ELSE Zero IN
-    /\ chan = [c \in Chan |-> [d \in Denom |-> [out |-> pre[c][d], sent |-> pre[c][d]]]]
+    /\ chan = [c \in Chan |-> [d \in Denom |-> [out |-> 0, sent |-> 0]]]     \* in flight: escrowed, not yet in the books
     /\ held = [d \in Denom |-> SumF(Chan, [c \in Chan |-> pre[c][d]])]
     /\ ubal = [u \in User |-> [d \in Denom |-> IF u = "u1" /\ c0.legacy THEN -1 ELSE 0]]
     /\ defaultGas = IF c0.legacy THEN -1 ELSE c0.defaultGas
@@ -37,7 +37,7 @@ Init ==
     /\ pkts = IF c0.legacy THEN <<[ch |-> "ch1", denom |-> "nat", amt |-> 1, sender |-> "u1", done |-> FALSE],
                                    [ch |-> "ch1", denom |-> "tok", amt |-> 1, sender |-> "u1", done |-> FALSE]>> ELSE <<>>
     /\ now = [h |-> 0, t |-> 0] /\ out = <<>> /\ ack = "none"
-    /\ credit = pre /\ ident = pre /\ pktMax = PktMaxC
+    /\ credit = pre /\ ident = Zero /\ pktMax = PktMaxC
     /\ ev = [act |-> "reset", by |-> "env", ok |-> TRUE]
     /\ sched = <<>>
     /\ cfgv = [channels |-> SetToSeq(Chan), defaultGas |-> IF c0.legacy THEN 100 ELSE c0.defaultGas,
@@ -111,7 +111,11 @@ DoMigrate(g) ==
   /\ admin' = IF legacy THEN "gov" ELSE admin
   /\ defaultGas' = IF g # -1 THEN g ELSE defaultGas
   /\ out' = <<>> /\ ack' = "none"
-  /\ UNCHANGED <<chan, held, ubal, allow, tokFails, pkts, now, credit, ident, pktMax>>
+  \* v2 step (single channel): what is escrowed but not yet in the books was in flight at the upgrade
+  /\ chan' = IF legacy THEN [c \in Chan |-> [d \in Denom |-> IF c = "ch1"
+                 THEN [out |-> held[d], sent |-> chan[c][d].sent + (held[d] - chan[c][d].out)] ELSE chan[c][d]]] ELSE chan
+  /\ ident' = IF legacy THEN [c \in Chan |-> [d \in Denom |-> chan'[c][d].out]] ELSE ident
+  /\ UNCHANGED <<held, ubal, allow, tokFails, pkts, now, credit, pktMax>>
 DoTokFail(on) ==
   /\ tokFails' = on /\ tokFails # on
   /\ out' = <<>> /\ ack' = "none"
@@ -157,7 +161,7 @@ Spec == Init /\ [][Next]_mcvars
 
 A_C11 == [][C11_HeldWriters /\ C11_BadPacketReleasesNothing]_vars
 A_C12 == [][C12_SuccessAckPaid /\ C12_ErrorAckNoChange /\ C12_ReceiveNeverAborts /\ C12_OnePacket /\ C12_SentOnlyGrows
-            /\ C12_FailedCallNoChange /\ C12_FailureRefunds /\ C12_SuccessAckKeeps /\ C12_OthersKeepBooks]_vars
+            /\ C12_FailedCallNoChange /\ C12_FailureRefunds /\ C12_SuccessAckKeeps /\ C12_OthersKeepBooks /\ C12_LegacyMigrateRebases]_vars
 A_C18 == [][C18_AllowMonotone /\ C18_GovOnly /\ C18_GovExact /\ C18_MigrateFromLegacy /\ C18_DefaultGasWriters
             /\ C18_TransferGate /\ C18_PayoutGas]_vars
 
